@@ -112,6 +112,11 @@ Inductive op :=
                                                             succeeded (and called resetGatingForRefreshed) when another snap of
                                                             the same request caused the refusal; always [] for a one-snap
                                                             request. No hold record SHOULD change: see the monitor. *)
+| RefreshAll (auto : bool) (cands updated : list N)      (* a refresh of ALL snaps (UpdateMany without names; auto: with
+                                                            Flags.IsAutoRefresh): cands have an update available, updated
+                                                            are the snaps it went on with (observed; what they must be:
+                                                            refresh_targets below); their hold records are dropped *)
+| AutoFilter (cands selected : list N)                   (* auto-refresh phase 2 (snapsToRefresh): which candidates go on *)
 | Refreshed (s : N)                                      (* link-snap of a refresh: LastRefreshTime(s) := now *)
 | Tick (d : N).                                          (* the clock advances *)
 
@@ -130,6 +135,8 @@ Definition step (st : state) (o : op) : state :=
   | Reset s => mkState (reset (st_gating st) s) (st_lastref st) (st_now st)
   | RefreshAccepted snaps => mkState (fold_left reset snaps (st_gating st)) (st_lastref st) (st_now st)
   | RefreshRefused _ done => mkState (fold_left reset done (st_gating st)) (st_lastref st) (st_now st)
+  | RefreshAll _ _ updated => mkState (fold_left reset updated (st_gating st)) (st_lastref st) (st_now st)
+  | AutoFilter _ _ => st
   | Refreshed s => mkState (st_gating st) (fun x => if (x =? s)%N then st_now st else st_lastref st x) (st_now st)
   | Tick d => mkState (st_gating st) (st_lastref st) (st_now st + Z.of_N d)
   | Hook _ _ _ _ => st      (* not primitive: histories with hooks are run with hstep / hrun *)
@@ -168,6 +175,14 @@ Definition effective (st : state) (level s g : N) : bool :=
       && negb (negb (g =? system)%N && (st_lastref st s + max_postponement <? st_now st))
       && negb (h_until h <? st_now st)
   end.
+
+(* which snaps a refresh of all snaps goes on with: updatePlan.filterHeldSnaps (level HoldAutoRefresh for an auto-refresh,
+   HoldGeneral otherwise) and snapsToRefresh (auto-refresh phase 2) drop every candidate that HeldSnaps reports at that
+   level; holders = the possible holding snaps (system included). A refresh that NAMES its snaps does not look at holds. *)
+Definition held_by_any (st : state) (level : N) (holders : list N) (s : N) : bool :=
+  existsb (fun g => effective st level s g) holders.
+Definition refresh_targets (st : state) (level : N) (holders cands : list N) : list N :=
+  filter (fun s => negb (held_by_any st level holders s)) cands.
 
 Definition no_holds : gating := fun _ _ => None.
 Definition init_state (lr0 : N -> Z) (now0 : Z) : state := mkState no_holds lr0 now0.
@@ -284,13 +299,27 @@ Definition obs_agrees (n : N) (st : state) (res : option Z) (o : obs) : bool :=
   && forallb (fun e => match e with (s, g, _, _, _) => mem s (ids n) && mem g (ids n) end) (o_table o)
   && forallb (fun p => mem (fst p) (ids n) && mem (snd p) (ids n)) (o_held0 o ++ o_held1 o).
 
+Fixpoint nlist_eqb (a b : list N) : bool :=
+  match a, b with
+  | [], [] => true
+  | x :: a', y :: b' => (x =? y)%N && nlist_eqb a' b'
+  | _, _ => false
+  end.
+(* the observed selection of a refresh of all snaps is the one the model computes *)
+Definition op_consistent (n : N) (st : state) (o : op) : bool :=
+  match o with
+  | RefreshAll auto cands updated => nlist_eqb updated (refresh_targets st (if auto then 0 else 1)%N (ids n) cands)
+  | AutoFilter cands selected => nlist_eqb selected (refresh_targets st 0%N (ids n) cands)
+  | _ => true
+  end.
+
 Fixpoint mismatch_steps (n : N) (st : state) (steps : list obs) : bool :=
   match steps with
   | [] => false
   | o :: r =>
       let res := op_result st (o_op o) in
       let st' := hstep st (o_op o) in
-      if obs_agrees n st' res o then mismatch_steps n st' r else true
+      if op_consistent n st (o_op o) && obs_agrees n st' res o then mismatch_steps n st' r else true
   end.
 
 Definition mismatch (c : case) : bool :=
@@ -308,7 +337,9 @@ Record mon := mkMon {
   m_table : list (N * N * Z * Z * N);
   m_lr : N -> Z;
   m_sys : list (N * (Z * N));       (* snap -> (requested end of the system hold, level) while it must be in force *)
-  m_ep : list (N * N * Z)           (* (held, holder) -> start of the current hold episode, kept by the monitor itself *)
+  m_ep : list (N * N * Z);          (* (held, holder) -> start of the current hold episode, kept by the monitor itself *)
+  m_held0 : list (N * N);           (* HeldSnaps at both levels as observed after the previous step *)
+  m_held1 : list (N * N)
 }.
 
 (* the only operations after which the hold record of s by g may be gone: proceed by g, an accepted refresh request for
@@ -319,6 +350,7 @@ Definition may_remove (o : op) (res : option Z) (s g : N) : bool :=
   | Proceed g' snaps => (g' =? g)%N && (match snaps with [] => true | _ => mem s snaps end)
   | Reset s' => (s' =? s)%N && negb (g =? system)%N
   | RefreshAccepted snaps => mem s snaps && negb (g =? system)%N
+  | RefreshAll _ _ updated => mem s updated && negb (g =? system)%N
   | Hold _ g' _ snaps => (g' =? g)%N && mem s snaps && (match res with None => true | Some _ => false end)
   | Hook g' _ _ _ => (g' =? g)%N     (* a refused hold of the hook, or its proceed; but a record that is there before and
                                         after the hook run keeps its episode: a hook run never restarts one *)
@@ -412,9 +444,19 @@ Definition monitor_step (n : N) (m : mon) (o : obs) : bool * mon :=
         let '(s, (until, level)) := e in
         Bool.eqb (pmem (s, system) (o_held0 o)) (now <=? until)
         && Bool.eqb (pmem (s, system) (o_held1 o)) ((now <=? until) && (1 <=? level)%N)) sys in
-  (negb (vanish_ok && episode_ok && bound_ok (o_held0 o) && bound_ok (o_held1 o) && refuse_ok
+  (* 6. a refresh of all snaps goes on with exactly the candidates that were not reported held at its level just before *)
+  let is_held (l : list (N * N)) (s : N) := existsb (fun p => (fst p =? s)%N) l in
+  let select_ok := match o_op o with
+        | RefreshAll auto cands updated =>
+            forallb (fun s => Bool.eqb (mem s updated) (negb (is_held (if auto then m_held0 m else m_held1 m) s))) cands
+            && forallb (fun s => mem s cands) updated
+        | AutoFilter cands selected =>
+            forallb (fun s => Bool.eqb (mem s selected) (negb (is_held (m_held0 m) s))) cands
+            && forallb (fun s => mem s cands) selected
+        | _ => true end in
+  (negb (select_ok && vanish_ok && episode_ok && bound_ok (o_held0 o) && bound_ok (o_held1 o) && refuse_ok
          && expiry_ok (o_held0 o) && expiry_ok (o_held1 o) && sys_ok),
-   mkMon tbl lr sys ep).
+   mkMon tbl lr sys ep (o_held0 o) (o_held1 o)).
 
 Fixpoint monitor_steps (n : N) (m : mon) (steps : list obs) : bool :=
   match steps with
@@ -427,5 +469,5 @@ Definition monitor_fail (c : case) : bool :=
   match c with mkCase n times lr0 now0 steps =>
     let lr := decode_lr times lr0 in
     forallb (fun o => default_duration (ro_op o)) steps
-    && monitor_steps n (mkMon [] (fun x => assoc lr x 0) [] []) (map (decode_obs times) steps)
+    && monitor_steps n (mkMon [] (fun x => assoc lr x 0) [] [] [] []) (map (decode_obs times) steps)
   end.
